@@ -20,6 +20,7 @@ import Pog.Props.Loader
     every other declared 2xx response has its own arm with its own return                   (full, distinct keys) `secondary_2xx_arm_exists`
     text responses (`text/*` only, plain strings) return the text sent                      (full, distinct keys; F32b repaired) `text_response_returns_text`, `text_response_former_witness`
     an NDJSON stream is iterated with `iter_ndjson`, not with the SSE parser                (full, distinct keys; F43 repaired)  `ndjson_stream_uses_iter_ndjson`, `ndjson_stream_former_witness`
+    a JSON string arm of the Content-Type dispatch is decoded, not returned as raw text      (full; F69 repaired) `dispatch_str_arm`, `dispatch_json_string_former_witness`
     binary (non-streamed) responses return the bytes sent                                   ✗         `secondary_binary_parsed_as_json_counterexample`
     a secondary 2xx response with several media types dispatches on the Content-Type        ✗ (F59)   `secondary_2xx_ignores_content_type_counterexample`
     a streaming primary response next to another 2xx response                                ✗         `stream_with_second_2xx_breaks_module_counterexample`
@@ -191,6 +192,28 @@ theorem text_response_former_witness :
       [⟨.num 200, [⟨"text/plain".toList, .string⟩]⟩]⟩ ⟨200, some "text/plain".toList⟩ = .returned .text ∧
     handle .bundled ⟨"GET".toList, [.lit "/motd".toList], [], none,
       [⟨.num 200, [⟨mtJson, .string⟩]⟩]⟩ ⟨200, some "application/json".toList⟩ = .returned (.cast .str) := by
+  decide +kernel
+
+/-- The Content-Type dispatch of a response with several media types (F69 repaired): the arm of a media type whose name
+    contains `json` decodes a string body (`cast(str, response.json())`); only a string under another media type is the
+    raw `response.text`.  Before the repair every `str` arm returned `response.text`, so the JSON string `"a\"b"` came
+    back with its quotes and escapes. -/
+theorem dispatch_str_arm (k : Str) :
+    tyDispatchRet k .str = (if GenCode.isInfix "json".toList (lowerAscii k) then .cast .str else .text) := by
+  unfold tyDispatchRet
+  cases h : GenCode.isInfix "json".toList (lowerAscii k)
+  · simp
+  · simp [tyRet, useCattrs]
+
+/-- The former witness of F69: `{application/vnd.acme.v2+json: Widget, application/json: string}` answered with
+    `application/json` (the fallback arm) decodes the string; a `text/plain` string arm still returns the text. -/
+theorem dispatch_json_string_former_witness :
+    handle .bundled ⟨"GET".toList, [.lit "/w".toList], [], none,
+      [⟨.num 200, [⟨"application/vnd.acme.v2+json".toList, .model "Widget".toList⟩, ⟨mtJson, .string⟩]⟩]⟩
+      ⟨200, some "application/json".toList⟩ = .returned (.cast .str) ∧
+    handle .bundled ⟨"GET".toList, [.lit "/w".toList], [], none,
+      [⟨.num 200, [⟨mtJson, .model "Widget".toList⟩, ⟨"text/plain".toList, .string⟩]⟩]⟩
+      ⟨200, some "text/plain".toList⟩ = .returned .text := by
   decide +kernel
 
 /-- C05 "streaming responses yield the events the server sent", which parser (F43 repaired): a primary response that
